@@ -9,7 +9,7 @@ import pickle
 import subprocess
 import time
 
-from . import build, cases, kconv, shrink
+from . import build, cases, kconv, shrink, synth
 from .common import BUILD, COQ, MODEL, REPO, TYV, VERIF, SplitMix, hexs, pipe, unhex
 from .verdict import Check
 
@@ -178,6 +178,10 @@ def build_cases(tier, seed, extra=None):
     ts = [2, 4, 1, 3, 8]
     for i, s in enumerate(gen):
         out.append(("G2", ws[i % len(ws)], ts[i % len(ts)], 1 if i % 5 == 0 else 0, s))
+    # G3 grammar-directed sources
+    n3 = 1500 if tier == "quick" else 40000
+    for i, s in enumerate(synth.generate(rng, n3)):
+        out.append(("G3", ws[i % len(ws)], ts[i % len(ts)], 0, s))
     # G6 imports
     for i, s in enumerate(gen_imports(rng, 60 if tier == "quick" else 2000)):
         out.append(("G6", [80, 20, 0][i % 3], 2, 1, s))
